@@ -103,6 +103,13 @@ theorem step_frame (proj : Nat → Nat) (s : ES) (st : Step) :
           · split
             · exact ⟨Nat.le_add_right _ _, fun r hr => pushCells_below _ _ _ _ hr, fun r hr => setOwner_below _ _ _ _ _ hr⟩
             · exact ⟨Nat.le_add_right _ _, fun r hr => pushCells_below _ _ _ _ hr, fun r hr => setOwner_below _ _ _ _ _ hr⟩
+  | seed i e =>
+    simp only [step]
+    split
+    · exact ⟨Nat.le_refl _, fun _ _ => rfl, fun _ _ => rfl⟩
+    · split
+      · exact ⟨Nat.le_add_right _ _, fun r hr => pushCells_below _ _ _ _ hr, fun r hr => setOwner_below _ _ _ _ _ hr⟩
+      · exact ⟨Nat.le_succ _, fun r hr => pushCells_below _ _ _ _ hr, fun r hr => setOwner_below _ _ _ _ _ hr⟩
 
 theorem run_frame (proj : Nat → Nat) (steps : List Step) :
     ∀ s : ES, s.next ≤ (run proj s steps).next ∧ (∀ r, r < s.next → (run proj s steps).heap r = s.heap r) ∧
@@ -446,6 +453,25 @@ theorem step_inv (proj : Nat → Nat) (s : ES) (st : Step) (hi : Inv s) : Inv (s
                   rcases hx with hx | hx
                   · exact Or.inl hx
                   · subst hx; exact Or.inr (Or.inl ⟨by omega, by simp⟩))
+  | seed i e =>
+    simp only [step]
+    split
+    · exact hi
+    · rename_i sb hf
+      have hsb := find_mem hf
+      split
+      · exact Inv.alloc_replace hi sb hsb [e, projEv proj e] _ (fun _ => rfl) rfl rfl rfl (fun x hx => hx)
+          (fun x hx => by
+            simp only [List.mem_append, List.mem_singleton] at hx
+            rcases hx with hx | hx
+            · exact Or.inl hx
+            · subst hx; exact Or.inr (Or.inl ⟨by omega, by simp⟩))
+      · exact Inv.alloc_replace hi sb hsb [e] _ (fun _ => rfl) rfl rfl rfl (fun x hx => hx)
+          (fun x hx => by
+            simp only [List.mem_append, List.mem_singleton] at hx
+            rcases hx with hx | hx
+            · exact Or.inl hx
+            · subst hx; exact Or.inr (Or.inl ⟨Nat.le_refl _, by simp⟩))
 
 theorem run_inv (proj : Nat → Nat) (steps : List Step) : ∀ s : ES, Inv s → Inv (run proj s steps) := by
   induction steps with
